@@ -40,9 +40,22 @@ type Tap struct {
 	cut    bool
 	calls  int
 	NoSave bool
+	// tear >= 0: the next Write call forwards only that many bytes and fails with a
+	// transient error (as an expiring write deadline does); the trunk keeps working
+	tear int
+	// SlowBig > 0: Write calls of more than 1 MiB are delayed by this much (the mux holds its
+	// write lock meanwhile, so writers racing for the trunk reliably queue up behind it)
+	SlowBig time.Duration
 }
 
-func NewTap(c net.Conn) *Tap { return &Tap{Conn: c, limit: -1} }
+func NewTap(c net.Conn) *Tap { return &Tap{Conn: c, limit: -1, tear: -1} }
+
+// Tear arms a one-shot short write: see Tap.tear.
+func (t *Tap) Tear(k int) {
+	t.mu.Lock()
+	t.tear = k
+	t.mu.Unlock()
+}
 
 func (t *Tap) Write(p []byte) (int, error) {
 	t.mu.Lock()
@@ -50,6 +63,27 @@ func (t *Tap) Write(p []byte) (int, error) {
 	t.calls++
 	if t.cut {
 		return len(p), nil
+	}
+	if t.tear >= 0 {
+		k := t.tear
+		t.tear = -1
+		if k < len(p) {
+			n := 0
+			if k > 0 {
+				var err error
+				n, err = t.Conn.Write(p[:k])
+				if !t.NoSave {
+					t.rec = append(t.rec, p[:n]...)
+				}
+				if err != nil {
+					return n, err
+				}
+			}
+			return n, fmt.Errorf("short write: %w", os.ErrDeadlineExceeded)
+		}
+	}
+	if t.SlowBig > 0 && len(p) > 1<<20 {
+		time.Sleep(t.SlowBig)
 	}
 	q := p
 	if t.limit >= 0 && int64(len(q)) > t.limit {
